@@ -741,3 +741,57 @@ func ListenOwn() net.Listener {
 	}
 	panic("stack: no free port in the worker's range")
 }
+
+// Blackhole is a listener that never accepts and whose accept queue is full: a connection attempt to it is neither
+// refused nor answered, it just does not complete (what a firewalled or overloaded host looks like) until the caller's
+// dial timeout. Close releases it.
+type Blackhole struct {
+	Port    int
+	fd      int
+	fillers []net.Conn
+}
+
+func NewBlackhole() (*Blackhole, error) {
+	portMu.Lock()
+	defer portMu.Unlock()
+	if portBase == 0 {
+		claimBlock()
+	}
+	for tries := 0; tries < 2*portSpan; tries++ {
+		p := portBase + 1 + portNext%(portSpan-1)
+		portNext++
+		fd, err := syscall.Socket(syscall.AF_INET, syscall.SOCK_STREAM, 0)
+		if err != nil {
+			return nil, err
+		}
+		syscall.SetsockoptInt(fd, syscall.SOL_SOCKET, syscall.SO_REUSEADDR, 1)
+		if err := syscall.Bind(fd, &syscall.SockaddrInet4{Port: p, Addr: [4]byte{127, 0, 0, 1}}); err != nil {
+			syscall.Close(fd)
+			continue
+		}
+		if err := syscall.Listen(fd, 0); err != nil {
+			syscall.Close(fd)
+			continue
+		}
+		b := &Blackhole{Port: p, fd: fd}
+		// fill the accept queue (backlog 0 holds one established connection; a few more attempts make sure)
+		for i := 0; i < 3; i++ {
+			c, err := net.DialTimeout("tcp", fmt.Sprintf("127.0.0.1:%d", p), 300*time.Millisecond)
+			if err != nil {
+				break
+			}
+			b.fillers = append(b.fillers, c)
+		}
+		return b, nil
+	}
+	return nil, fmt.Errorf("stack: no free port for a blackhole")
+}
+
+func (b *Blackhole) URL() string { return fmt.Sprintf("http://127.0.0.1:%d", b.Port) }
+
+func (b *Blackhole) Close() {
+	for _, c := range b.fillers {
+		c.Close()
+	}
+	syscall.Close(b.fd)
+}
